@@ -41,7 +41,7 @@ fn info(tier: Tier) -> CheckInfo {
         id: "C12",
         level: "model_checking",
         rule: format!(
-            "Explicit-state BFS (depth {}) whose state is the real RoutingTable + virtual clock, from 6 initial states (empty; one bucket pre-filled through real add() calls with 19 and with 20 fresh nodes; the same aged 14 and 16 minutes; a 20-node bucket whose head is stale and whose tail is fresh) over a 22-action alphabet: add of new ids into the full bucket / another bucket, re-add of a present id with same address / new port / new IP, an insecure id on the IP of a present secure node and vice versa, a second secure id with the same and with a different 21-bit prefix on one IP, an id first seen as insecure on an unrelated IP that later shows up on an occupied IP for which it is secure, add(self id), remove present/absent, re-key to an id in another bucket class and to the id of a present node, clock steps 1/14/16 min. Every state: no self id, unique ids, bucket key = distance, buckets <= 20, size/iteration/is_empty agree, per-IP Sybil limits, to_bootstrap = non-stale entries. Every add: nothing foreign appears and at most the stale head of a full bucket (or the same-id entry being replaced) disappears.",
+            "Explicit-state BFS (depth {}) whose state is the real RoutingTable + virtual clock, from 6 initial states (empty; one bucket pre-filled through real add() calls with 19 and with 20 fresh nodes; the same aged 14 and 16 minutes; a 20-node bucket whose head is stale and whose tail is fresh) over a 22-action alphabet: add of new ids into the full bucket / another bucket, re-add of a present id with same address / new port / new IP, an insecure id on the IP of a present secure node and vice versa, a second secure id with the same and with a different 21-bit prefix on one IP, an id first seen as insecure on an unrelated IP that later shows up on an occupied IP for which it is secure, add(self id), remove present/absent, re-key to an id in another bucket class and to the id of a present node, clock steps 1/14/16 min. Every state: no self id, unique ids, bucket key = distance, buckets <= 20, size/iteration/is_empty agree, per-IP Sybil limits, to_bootstrap = non-stale entries. Every add: nothing foreign appears and at most the stale head of a full bucket (or the same-id entry being replaced) disappears. Address classes: 26 addresses on both sides of every BEP42 exemption boundary (10/8, 172.16/12, 192.168/16, 169.254/16, 127/8) x a family of five ids (two insecure, secure, secure with the same prefix, secure with another prefix) added to an empty table in all 120 orders, the same invariants after every add. Distance classes: one node per first-differing bit (all 160) added to one table in three orders, the same invariants after every add (the bucket key against the harness' own bitwise distance).",
             depth(tier)
         ),
         assumptions: vec![
@@ -443,6 +443,110 @@ fn initial_states(cfg: &Arc<Cfg>) -> Vec<St> {
     v
 }
 
+/// Address classes: the per-IP rules on addresses at both sides of every exemption boundary of
+/// BEP42 (10/8, 172.16/12, 192.168/16, 169.254/16, 127/8). A family of five ids per address -
+/// two that are insecure there (on a public address), one secure, one secure with the same
+/// 21-bit prefix, one secure with another prefix - is added to an empty table in all 120 orders;
+/// every state is judged by the same invariants as the search.
+const SWEEP_IPS: [[u8; 4]; 26] = [
+    [9, 255, 255, 255], [10, 0, 0, 0], [10, 255, 255, 255], [11, 0, 0, 0],
+    [172, 15, 255, 255], [172, 16, 0, 0], [172, 31, 255, 255], [172, 32, 0, 0], [172, 64, 3, 3], [172, 200, 1, 1], [172, 255, 255, 255], [172, 0, 0, 1],
+    [192, 167, 255, 255], [192, 168, 0, 0], [192, 168, 255, 255], [192, 169, 0, 0], [192, 0, 2, 1], [193, 168, 1, 1],
+    [169, 253, 255, 255], [169, 254, 0, 0], [169, 254, 255, 255], [169, 255, 0, 0],
+    [126, 255, 255, 255], [127, 0, 0, 1], [127, 255, 255, 255], [128, 0, 0, 0],
+];
+
+fn sweep_family(own: &Id20, ip: Ipv4Addr) -> Vec<Pn> {
+    let mut f = [0x42u8; 20];
+    f[0] = own[0] ^ 0x80;
+    let mut a = fill_id(own, 7);
+    a[5] = 0x31;
+    let mut b = fill_id(own, 8);
+    b[5] = 0x32;
+    let mut f2 = f;
+    f2[7] = 0x43;
+    let fam = vec![
+        Pn { id: a, addr: SocketAddrV4::new(ip, 4000) },
+        Pn { id: b, addr: SocketAddrV4::new(ip, 4001) },
+        Pn { id: bep42_id(ip, &f, 1), addr: SocketAddrV4::new(ip, 4002) },
+        Pn { id: bep42_id(ip, &f2, 1), addr: SocketAddrV4::new(ip, 4003) },
+        Pn { id: bep42_id(ip, &f2, 2), addr: SocketAddrV4::new(ip, 4004) },
+    ];
+    fam
+}
+
+/// Distance classes: one node per first-differing bit (all 160), added to one table in
+/// ascending, descending and interleaved order; every state judged by the same invariants
+/// (the bucket key is compared with the harness' own bitwise distance).
+fn distance_sweep(cfg: &Arc<Cfg>, order: usize, out: &mut Partial) {
+    sim::install_env();
+    sim::enter_local(sim::T0, 7);
+    let own = cfg.own[0];
+    let mut st = St { cfg: cfg.clone(), table: RoutingTable::new(own.into()), now: sim::T0, init: 0 };
+    let bits: Vec<usize> = match order {
+        0 => (0..160).collect(),
+        1 => (0..160).rev().collect(),
+        _ => (0..160).map(|i| (i * 67) % 160).collect(),
+    };
+    for (step, bit) in bits.iter().enumerate() {
+        let mut id = own;
+        id[bit / 8] ^= 0x80 >> (bit % 8);
+        // (tail bits after the first differing one vary too)
+        if bit / 8 + 1 < 20 {
+            id[19] ^= (*bit as u8) | 1;
+        }
+        let ip = Ipv4Addr::new(70, 1 + (bit / 200) as u8, 1, 1 + (*bit % 200) as u8);
+        let accepted = st.table.add(node_of(&Pn { id, addr: SocketAddrV4::new(ip, 6881) }));
+        out.add("distance_class_adds", 1);
+        if !accepted {
+            out.violation("table/distance-class-add-refused", format!("a node whose id first differs from the table's at bit {bit} (own IP, empty bucket) was refused"), json!({"distance_sweep": order}));
+        }
+        let mut tmp = Partial::default();
+        st.check_invariants(&mut tmp, &[0]);
+        for v in tmp.violations {
+            out.violation(format!("{}/distance-class", v.key), format!("{} [one node per first-differing bit, order #{order}, after add #{} (bit {bit})]", v.desc, step + 1), json!({"distance_sweep": order}));
+        }
+    }
+    if st.table.size() != 160 {
+        out.violation("table/distance-class-size", format!("160 nodes at 160 different distances were added, the table holds {}", st.table.size()), json!({"distance_sweep": order}));
+    }
+}
+
+fn nth_permutation(n: usize, mut k: usize) -> Vec<usize> {
+    let mut items: Vec<usize> = (0..n).collect();
+    let mut out = vec![];
+    for i in (1..=n).rev() {
+        let f: usize = (1..i).product();
+        out.push(items.remove(k / f));
+        k %= f;
+    }
+    out
+}
+
+fn ip_sweep_one(cfg: &Arc<Cfg>, ip_index: usize, order: usize, out: &mut Partial) {
+    sim::install_env();
+    sim::enter_local(sim::T0, 7);
+    let own = cfg.own[0];
+    let ip = Ipv4Addr::from(SWEEP_IPS[ip_index]);
+    let fam = sweep_family(&own, ip);
+    let mut st = St { cfg: cfg.clone(), table: RoutingTable::new(own.into()), now: sim::T0, init: 0 };
+    let perm = nth_permutation(fam.len(), order);
+    for (step, &i) in perm.iter().enumerate() {
+        let accepted = st.table.add(node_of(&fam[i]));
+        out.add("address_class_adds", 1);
+        out.add(if accepted { "address_class_adds_accepted" } else { "address_class_adds_refused" }, 1);
+        let mut tmp = Partial::default();
+        st.check_invariants(&mut tmp, &[0]);
+        for v in tmp.violations {
+            out.violation(
+                format!("{}/address-class/{}", v.key, if bep42_valid(&[0xEE; 20], ip) { "exempt" } else { "public" }),
+                format!("{} [family of five ids on {ip}, add order {:?}, after add #{}]", v.desc, perm, step + 1),
+                json!({"ip_sweep": ip_index, "order": order}),
+            );
+        }
+    }
+}
+
 fn run(tier: Tier, _s: usize, _n: usize, _seed: u64) -> Partial {
     let cfg = Arc::new(build_cfg());
     let inits = initial_states(&cfg);
@@ -452,6 +556,15 @@ fn run(tier: Tier, _s: usize, _n: usize, _seed: u64) -> Partial {
         st.enter();
         st.check_invariants(&mut out, &[i as u16]);
     }
+    for ip_index in 0..SWEEP_IPS.len() {
+        for order in 0..120 {
+            ip_sweep_one(&cfg, ip_index, order, &mut out);
+        }
+    }
+    for order in 0..3 {
+        distance_sweep(&cfg, order, &mut out);
+    }
+    out.witness("the address-class sweep saw accepted and refused adds", out.count("address_class_adds_accepted") > 0 && out.count("address_class_adds_refused") > 0);
     let bfs = Bfs { max_depth: depth(tier), max_states: if tier.is_quick() { 3_000_000 } else { 30_000_000 }, threads: super::cores(), collect_paths: false };
     let stats = bfs.run(inits, &mut out);
     out.notes.push(format!(
@@ -472,6 +585,18 @@ fn run(tier: Tier, _s: usize, _n: usize, _seed: u64) -> Partial {
 }
 
 fn replay(v: &Value) -> Result<Option<Violation>, String> {
+    if let Some(order) = v.get("distance_sweep").and_then(|x| x.as_u64()) {
+        let cfg = Arc::new(build_cfg());
+        let mut out = Partial::default();
+        distance_sweep(&cfg, order as usize, &mut out);
+        return Ok(out.violations.into_iter().next());
+    }
+    if let Some(ip_index) = v.get("ip_sweep").and_then(|x| x.as_u64()) {
+        let cfg = Arc::new(build_cfg());
+        let mut out = Partial::default();
+        ip_sweep_one(&cfg, ip_index as usize, v.get("order").and_then(|x| x.as_u64()).ok_or("order")? as usize, &mut out);
+        return Ok(out.violations.into_iter().next());
+    }
     let path: Vec<u16> = v.get("path").and_then(|p| p.as_array()).ok_or("path")?.iter().filter_map(|x| x.as_u64().map(|x| x as u16)).collect();
     let cfg = Arc::new(build_cfg());
     let mut inits = initial_states(&cfg);
